@@ -808,4 +808,135 @@ theorem staleScan_max (t : Target) (name rid : Bytes) (order : List Nat) (s : St
   have h0 : ScanMax t name rid [] {} := ⟨by simp, by simp, by simp⟩
   simpa using staleScan_max_aux t name rid order [] {} s h0 h
 
+/-! ### gc and ANY id a source still reports -/
+
+/-- requests that leave the newest entry (database `d` under key `name`) of id `rid` alone -/
+def GSafe (rid name : Bytes) (d : Nat) : Req → Prop
+  | .hdelCp db nm ks => ∃ ρ, (∀ k ∈ ks, k.1 = ρ) ∧ (nm = name → ρ ≠ rid ∨ db ≠ d)
+  | .hdelHash r' => r' ≠ rid
+  | _ => False
+
+structure LiveInv (rid name : Bytes) (d : Nat) (X : Int) (t : Target) : Prop where
+  solo : Solo rid t name d X
+  own : ∀ n, RunidOwn t n
+
+theorem liveInv_applyReq {rid name : Bytes} {d : Nat} {X : Int} {t : Target}
+    (hi : LiveInv rid name d X t) (q : Req) (hq : GSafe rid name d q) :
+    LiveInv rid name d X (applyReq t q) := by
+  cases q with
+  | hsetCp db nm es => exact absurd hq (by simp [GSafe])
+  | delKeys db names => exact absurd hq (by simp [GSafe])
+  | hsetHash r' nm => exact absurd hq (by simp [GSafe])
+  | hsetnxHash r' nm => exact absurd hq (by simp [GSafe])
+  | hdelHash r' => exact ⟨⟨hi.solo.nonneg, hi.solo.parses, hi.solo.off, hi.solo.below⟩, hi.own⟩
+  | hdelCp db nm ks =>
+    obtain ⟨ρ, hkeys, hsafe⟩ := hq
+    have hcps : ∀ db' n', (applyReq t (.hdelCp db nm ks)).cps db' n' =
+        if db' = db ∧ n' = nm then hdelMany (t.cps db nm) ks else t.cps db' n' :=
+      fun db' n' => applyReq_hdelCp_cps t db nm ks db' n'
+    refine ⟨⟨hi.solo.nonneg, ?_, ?_, ?_⟩, ?_⟩
+    · intro db'
+      rw [hcps]; split
+      · rename_i hc; rw [← hc.2]; exact (hi.solo.parses db).filter _
+      · exact hi.solo.parses db'
+    · rw [hcps]; split
+      · rename_i hc
+        have hρ : ρ ≠ rid := by
+          rcases hsafe hc.2.symm with h | h
+          · exact h
+          · exact absurd hc.1.symm h
+        rw [← hc.2, ← hc.1, offOf_hdel_irrel]
+        · exact hi.solo.off
+        · intro e _ hcont
+          rw [← Bool.not_eq_true, offSel_iff, matchId_one]
+          intro hs; exact hρ ((key_rid_of_contains hkeys hcont).symm.trans hs.1)
+      · exact hi.solo.off
+    · intro db' hdb'
+      rw [hcps]; split
+      · rename_i hc; rw [← hc.2, ← hc.1]; exact (hi.solo.below db' hdb').filter _
+      · exact hi.solo.below db' hdb'
+    · intro n' db' e he hk
+      rw [hcps] at he
+      split at he
+      · rename_i hc; rw [hc.1, hc.2] at *; exact hi.own nm db e (List.mem_filter.mp he).1 hk
+      · exact hi.own n' db' e he hk
+
+theorem liveInv_applyAll {rid name : Bytes} {d : Nat} {X : Int} (rs : List Req) :
+    ∀ {t : Target}, LiveInv rid name d X t → (∀ q ∈ rs, GSafe rid name d q) →
+      LiveInv rid name d X (applyAll t rs) := by
+  induction rs with
+  | nil => intro t hi _; exact hi
+  | cons q rs ih =>
+    intro t hi hs
+    simp only [applyAll, List.foldl_cons]
+    exact ih (liveInv_applyReq hi q (hs q (List.mem_cons_self ..)))
+      (fun q' hq' => hs q' (List.mem_cons_of_mem _ hq'))
+
+theorem delStale_gsafe {rid name : Bytes} {d : Nat} {X : Int} {t : Target}
+    (hq : rid ≠ qmark) (hi : LiveInv rid name d X t)
+    (cpn rid' : Bytes) (before : Int) (exist : Bool) (order : List Nat) (hex : rid' = rid → exist = true) :
+    ∀ q ∈ (delStale t cpn rid' before exist order).2.2, GSafe rid name d q := by
+  intro q hq'
+  unfold delStale at hq'
+  cases hs : staleScan t cpn rid' order with
+  | none => simp [hs] at hq'
+  | some s =>
+    simp only [hs] at hq'
+    obtain ⟨p, hp, rfl⟩ := List.mem_map.mp hq'
+    have hpf : p ∈ s.found := (List.mem_filter.mp hp).1
+    have hpv := (List.mem_filter.mp hp).2
+    refine ⟨p.2.runId, ?_, ?_⟩
+    · intro k hk; unfold staleKeys at hk; split at hk <;> simp [fourKeys] at hk <;>
+        rcases hk with rfl | rfl | rfl | rfl <;> rfl
+    · intro hname
+      subst hname
+      by_cases hrid : rid' = rid
+      · subst hrid
+        right
+        intro hpd
+        have hnew := staleScan_newest_solo hi.solo order s hs p hpf hpd
+        have hE := hex rfl
+        simp only [hE, decide_eq_true_eq] at hpv
+        apply hpv; left
+        exact ⟨hpd.trans hnew.symm, trivial⟩
+      · left
+        have hfetch := staleScan_found t cpn rid' order {} s (by simp) hs p hpf
+        rcases fetch_one_runId rid' (t.cps p.1 cpn) p.2 (hi.own cpn p.1) {} (Or.inr rfl) hfetch with h | h
+        · rw [h]; exact hrid
+        · rw [h]; exact hq.symm
+
+/-- no request of a whole gc pass touches the newest entry of a live id or its hash entry -/
+theorem gcLoop_gsafe {rid name : Bytes} {d : Nat} {X : Int} (hq : rid ≠ qmark) (live : List Bytes)
+    (hl : rid ∈ live) (before : Int) :
+    ∀ (pairs : List (Bytes × Bytes)) (orders : List (List Nat)) (t : Target),
+      LiveInv rid name d X t → ∀ q ∈ gcLoop live before t pairs orders, GSafe rid name d q := by
+  intro pairs
+  induction pairs with
+  | nil => intro orders t _ q hq'; simp [gcLoop] at hq'
+  | cons pr rest ih =>
+    intro orders t hi q hq'
+    obtain ⟨rid', cpn⟩ := pr
+    simp only [gcLoop] at hq'
+    generalize hrs : (delStale t cpn rid' before (live.contains rid') (orders.headD [])).2.2 ++
+      (if ¬ (live.contains rid' = true) ∧
+          (delStale t cpn rid' before (live.contains rid') (orders.headD [])).1 =
+          (delStale t cpn rid' before (live.contains rid') (orders.headD [])).2.1
+        then [Req.hdelHash rid'] else []) = rs at hq'
+    have hsafe : ∀ q ∈ rs, GSafe rid name d q := by
+      intro q hq''
+      rw [← hrs] at hq''
+      rcases List.mem_append.mp hq'' with hq'' | hq''
+      · exact delStale_gsafe hq hi cpn rid' before _ _
+          (fun h => by rw [h]; exact List.contains_iff_mem.mpr hl) q hq''
+      · split at hq''
+        · rename_i hc
+          have : q = Req.hdelHash rid' := by simpa using hq''
+          subst this
+          show rid' ≠ rid
+          intro h; exact hc.1 (List.contains_iff_mem.mpr (h ▸ hl))
+        · simp at hq''
+    rcases List.mem_append.mp hq' with h | h
+    · exact hsafe q h
+    · exact ih _ _ (liveInv_applyAll rs hi hsafe) q h
+
 end GunYu.Checkpoint
